@@ -61,10 +61,21 @@ SeedNamed ==
     Rc("ns.RT", <<F("w", PrimS("long")), F("kids", Arr(RefS("ns.RT")))>>) }
 
 Seeds == SeedLeaves \cup SeedContainers \cup SeedRecords \cup SeedNamed
-(* the quick tier explores two steps only from these *)
+(* seeds explored to MaxSteps (the others to one step): a few in the quick tier, a third of them in the thorough tier *)
 QuickDeepSeeds ==
   { PrimS("long"), E3, Un(<<PrimS("null"), PrimS("int")>>),
     Rc("ns.R2", <<F("a", PrimS("int")), F("b", PrimS("string"))>>) }
+ThoroughDeepSeeds ==
+  QuickDeepSeeds \cup
+  { PrimS("int"), PrimS("bytes"), F2, Arr(PrimS("int")), Mp(PrimS("long")), Un(<<RecA, RecB>>),
+    Rc("ns.R5", <<F("a", PrimS("date")), F("b", PrimS("timestamp-millis"))>>),
+    Rc("ns.R6", <<F("u", Un(<<PrimS("null"), PrimS("int")>>))>>),
+    Rc("ns.R9", <<F("e", E3), F("f", F2)>>),
+    Rc("ns.RO", <<F("i", Rc("ns.I", <<F("x", PrimS("long"))>>)), F("j", RefS("ns.I"))>>),
+    Rc("ns.RN", <<F("a", Fx("ns.N", 2)), F("b", RefS("ns.N"))>>),
+    Rc("ns.RL", <<F("v", PrimS("int")), F("next", Un(<<PrimS("null"), RefS("ns.RL")>>))>>) }
+(* ... and these small ones to three steps in the thorough tier *)
+ThreeStepSeeds == { PrimS("int"), E3 }
 
 RThin(s) ==
   CASE s.k \in IntKinds -> {[t |-> s.k, n |-> x] : x \in {NegNatToLE8(1), NatToLE8(16777217)}}
